@@ -31,7 +31,7 @@ m = {
     "setup_cmd": "./setup.sh",
     "hooks": {
         "guard": "verif",
-        "enable": "go test -tags verif -overlay <overlay.json>: cmd/vinstr rewrites the working tree's sources at build time and injects package verifshim (build tag verif) into the module; nothing is committed to /repo for hooks",
+        "enable": "go test -tags verif -overlay <overlay.json>: cmd/vinstr rewrites the working tree's sources at build time and injects package verifshim (build tag verif) into the module plus one build-tagged file into the root package (shim/root/verif_hooks.go: lets the harness point the library's default HTTP client at the in-memory network); nothing is committed to /repo for hooks",
         "baseline_off_cmd": "cd /repo && GOFLAGS=-mod=mod GOPROXY=off GOSUMDB=off go test -vet=off -count=1 ./...",
         "source_commits": [],
         "add_only": True,
